@@ -21,6 +21,7 @@ type Cfg struct {
 	Mask     int    // Emit: failing indices
 	Step     string // Unfold: inc | dbl | const
 	ConsGaps []int  // consumer: sleep ConsGaps[i] before the i-th receive; after the script it cancels (generators) or keeps draining with gap 0 (throttle)
+	Drain    bool   // generator consumer: after its script and its cancel it keeps receiving until the channel closes
 	CancelAt int    // >=0: a canceller thread sleeps that long, then cancels
 	Ops      int    // Throttling
 	Interval int    // Throttling, ticks
@@ -52,6 +53,12 @@ func Scenario(c Cfg) {
 			}
 			env.Log("cancel")
 			cancel()
+			if c.Drain {
+				for x := range out {
+					env.Log("got", x)
+				}
+				env.Log("got-eof")
+			}
 		}()
 	}
 	errReader := func(exx <-chan error) {
